@@ -47,6 +47,11 @@ fn err_class(e: &vecdb::Error) -> String {
     }
 }
 
+/// 0 = values as described below, 1 = the vector is created and stamped but never holds a value
+/// (its data region is exactly one header), 2 = it held 40 values and was truncated to nothing
+/// before the stamped write. Read by `create` (the table is evaluated on one thread).
+static EMPTY_MODE: std::sync::atomic::AtomicU8 = std::sync::atomic::AtomicU8::new(0);
+
 const N_VALUES: usize = 2500; // > one page of u64 (2048) so that compressed vectors have 2 pages
 
 /// Creates vector "v" in `db` through the chosen entry point, fills it, optionally deletes slots
@@ -61,9 +66,14 @@ fn create<V: VecLike>(db: &Database, forced: bool, version: u32, aux: bool) -> R
             (true, false) => V::v_forced_import3(db, "v", Version::new(version))?,
             (false, false) => V::v_import3(db, "v", Version::new(version))?,
         };
-        let n = if aux { N_VALUES } else { 40 };
+        let mode = EMPTY_MODE.load(std::sync::atomic::Ordering::Relaxed);
+        let n = if mode == 1 { 0 } else if aux { N_VALUES } else { 40 };
         for i in 0..n {
             v.v_push(<V::E as Elem>::make(1000 + i as u64));
+        }
+        if mode == 2 {
+            v.v_stamped_write(3)?;
+            v.v_truncate(0)?;
         }
         v.v_stamped_write(7)?;
         if aux && V::RAW {
@@ -193,11 +203,12 @@ pub fn check_c14(ctx: &Ctx) -> i32 {
                     for reopen_forced in [false, true] {
                         for stored_v in [1u32, 2] {
                             for req_v in [1u32, 2] {
-                                for aux in [false, true] {
+                                for (aux, empty_mode) in [(false, 0u8), (true, 0), (false, 1), (false, 2)] {
+                                    EMPTY_MODE.store(empty_mode, std::sync::atomic::Ordering::Relaxed);
                                     cells += 1;
                                     let tmp = TempDir::new("imp");
                                     let db = Database::open(tmp.path()).expect("open");
-                                    let cell = json!({"element": elem, "stored_format": sf.name, "requested_format": rf.name, "created_with": entry(create_forced), "reopened_with": entry(reopen_forced), "stored_version": stored_v, "requested_version": req_v, "aux_regions": aux});
+                                    let cell = json!({"element": elem, "stored_format": sf.name, "requested_format": rf.name, "created_with": entry(create_forced), "reopened_with": entry(reopen_forced), "stored_version": stored_v, "requested_version": req_v, "aux_regions": aux, "contents": (["values", "never any value (header-only data region)", "emptied by truncation"][empty_mode as usize])});
                                     let keys = match (sf.create)(&db, create_forced, stored_v, aux) {
                                         Ok(k) => k,
                                         Err(e) => {
@@ -268,6 +279,7 @@ pub fn check_c14(ctx: &Ctx) -> i32 {
             }
         }
 
+        EMPTY_MODE.store(0, std::sync::atomic::Ordering::Relaxed);
         // ---- forced-import chains f1 -> f2 -> f3 (auxiliary regions of an older format must
         //      never leak into a later vector) ---------------------------------------------
         for f1 in fmts {
@@ -371,7 +383,7 @@ pub fn check_c14(ctx: &Ctx) -> i32 {
         "evaluations": cells,
         "distinct_nontrivial": cells,
         "exhaustive": true,
-        "rule": "one evaluation = one cell of the import decision table, executed on a fresh database: (element type) x (stored format x requested format over Bytes/ZeroCopy/Pco/LZ4/Zstd) x (created with import|forced_import) x (re-opened with import|forced_import) x (stored version 1|2) x (requested version 1|2) x (small vector | multi-page vector with deleted slots (raw: holes region; compressed: 2-page index)); plus all forced-import chains f1->f2->f3 (125 per element type) and damaged-header / odd-length cases per format and entry point. Expected outcome per cell: match -> stored contents, deleted slots and stamp returned and regions untouched; mismatch + import -> DifferentVersion/DifferentFormat and all regions byte-identical; mismatch + forced_import -> empty vector (len 0, no deleted slots, stamp 0); afterwards the vector that is now stored must accept push + flush + re-import. All cells are distinct by construction and the table is enumerated completely.",
+        "rule": "one evaluation = one cell of the import decision table, executed on a fresh database: (element type) x (stored format x requested format over Bytes/ZeroCopy/Pco/LZ4/Zstd) x (created with import|forced_import) x (re-opened with import|forced_import) x (stored version 1|2) x (requested version 1|2) x (small vector | multi-page vector with deleted slots (raw: holes region; compressed: 2-page index) | vector that never held a value (data region = one header) | vector emptied by truncation); plus all forced-import chains f1->f2->f3 (125 per element type) and damaged-header / odd-length cases per format and entry point. Expected outcome per cell: match -> stored contents, deleted slots and stamp returned and regions untouched; mismatch + import -> DifferentVersion/DifferentFormat and all regions byte-identical; mismatch + forced_import -> empty vector (len 0, no deleted slots, stamp 0); afterwards the vector that is now stored must accept push + flush + re-import. All cells are distinct by construction and the table is enumerated completely.",
         "samples": samples,
         "cells_by_class": stats.to_json(),
     });
